@@ -2,7 +2,12 @@
 //!
 //! Generated multi-file projects are written to disk and assembled with the REAL `Context` exactly as
 //! `src/bin/assembler.rs` does (`assemble`, `close_segment`, `finalize`, `output().iter()`, `get_errors()`).
-//! Observation: the bytes of every `.du32 <name>;` statement and the diagnostics (kind + file + line).
+//! Observation: the bytes of every statement that USES a name and the diagnostics (kind + file + line).  A use is spelled
+//! `.du32 <name>;` or as an instruction whose operand goes through one of the evaluator arms of `convert!` in
+//! `src/arm6m/mod.rs` (Immediate: SVC / UDF.N / UDF.W / RSBS; ImmReg: MOVS / CMP; Offset: B / BKPT; Address: LDRB;
+//! AddrOffset: LDR literal / LDR register+offset); the instruction's bytes are decoded back to the operand value.  Every
+//! name of a project belongs to a value class, so that each of its definitions is encodable in each spelling used for it;
+//! visibility semantics are those of `.du32`, so every spelling maps onto the `use` op of the model.
 //!  * correspondence: the project is flattened into the op sequence of the Lean model `Trion.Scope`
 //!    (`enter/exit/label/const/global/import/export/use/finalize`) and the model's log is compared with the
 //!    observation (values per statement, diagnostics in order, result of `finalize`, final global table);
@@ -15,6 +20,8 @@ use std::collections::{BTreeMap, HashMap, HashSet};
 use std::path::PathBuf;
 
 use trion::arm6m::Arm6M;
+use trion::arm6m::asm::{ImmReg, Instruction};
+use trion::arm6m::reg::Register;
 use trion::asm::constant::{Lookup, Realm};
 use trion::asm::directive::DirectiveList;
 use trion::asm::Context;
@@ -27,6 +34,150 @@ const REGS: [&str; 30] = ["R0", "R1", "R2", "R3", "R4", "R5", "R6", "R7", "R8", 
 
 fn is_reg(n: &str) -> bool {REGS.iter().any(|r| r.eq_ignore_ascii_case(n))}
 
+/// how a use is written
+#[derive(Clone, Copy, Debug, PartialEq, Eq)]
+enum Sp
+{
+	Du32,
+	// Immediate arm
+	Svc, UdfN, UdfW, Rsbs,
+	// ImmReg arm
+	Movs, Cmp,
+	// Offset arm
+	B, Bkpt,
+	// Address arm
+	Ldrb,
+	// AddrOffset arm
+	LdrLit, LdrOff,
+}
+
+const ALL_SP: [Sp; 12] = [Sp::Du32, Sp::Svc, Sp::UdfN, Sp::UdfW, Sp::Rsbs, Sp::Movs, Sp::Cmp, Sp::B, Sp::Bkpt, Sp::Ldrb, Sp::LdrLit, Sp::LdrOff];
+
+impl Sp
+{
+	fn code(self) -> &'static str
+	{
+		match self
+		{
+			Sp::Du32 => "du32", Sp::Svc => "svc", Sp::UdfN => "udfn", Sp::UdfW => "udfw", Sp::Rsbs => "rsbs", Sp::Movs => "movs", Sp::Cmp => "cmp",
+			Sp::B => "b", Sp::Bkpt => "bkpt", Sp::Ldrb => "ldrb", Sp::LdrLit => "ldrlit", Sp::LdrOff => "ldroff",
+		}
+	}
+	fn of_code(c: &str) -> Option<Sp> {ALL_SP.iter().copied().find(|s| s.code() == c)}
+	fn arm(self) -> &'static str
+	{
+		match self
+		{
+			Sp::Du32 => ".du32", Sp::Svc | Sp::UdfN | Sp::UdfW | Sp::Rsbs => "Immediate", Sp::Movs | Sp::Cmp => "ImmReg", Sp::B | Sp::Bkpt => "Offset",
+			Sp::Ldrb => "Address", Sp::LdrLit | Sp::LdrOff => "AddrOffset",
+		}
+	}
+	fn size(self) -> u32 {match self {Sp::Du32 | Sp::UdfW => 4, _ => 2}}
+	fn text(self, n: &str) -> String
+	{
+		match self
+		{
+			Sp::Du32 => format!(".du32 {n};"), Sp::Svc => format!("SVC {n};"), Sp::UdfN => format!("UDF.N {n};"), Sp::UdfW => format!("UDF.W {n};"),
+			Sp::Rsbs => format!("RSBS R0, R1, {n};"), Sp::Movs => format!("MOVS R0, {n};"), Sp::Cmp => format!("CMP R0, {n};"), Sp::B => format!("B {n};"),
+			Sp::Bkpt => format!("BKPT {n};"), Sp::Ldrb => format!("LDRB R0, [R1 + {n}];"), Sp::LdrLit => format!("LDR R0, {n};"), Sp::LdrOff => format!("LDR R0, [R1 + {n}];"),
+		}
+	}
+	/// can the statement at `addr` hold the value?
+	fn encodable(self, v: i64, addr: u32) -> bool
+	{
+		match self
+		{
+			Sp::Du32 => v >= 0 && v <= u32::MAX as i64,
+			Sp::Svc | Sp::UdfN | Sp::Movs | Sp::Cmp => (0..=255).contains(&v),
+			Sp::Bkpt => (0..=255).contains(&v) && v != 0xBE, // BKPT 0xBE is the padding pattern
+			Sp::UdfW => (0..=65535).contains(&v),
+			Sp::Rsbs => v == 0,
+			Sp::B => {let off = v - (addr as i64 + 4); (0..=u32::MAX as i64).contains(&v) && (-2048..=2046).contains(&off) && off % 2 == 0},
+			Sp::Ldrb => (0..=31).contains(&v),
+			Sp::LdrLit => {let off = v - ((addr & !3) as i64 + 4); (0..=u32::MAX as i64).contains(&v) && (0..=1020).contains(&off) && off % 4 == 0},
+			Sp::LdrOff => (0..=124).contains(&v) && v % 4 == 0,
+		}
+	}
+	/// the operand value held by the bytes of the statement at `addr`
+	fn read_back(self, bytes: &[u8], addr: u32) -> Option<u32>
+	{
+		if self == Sp::Du32 {return Some(u32::from_le_bytes([bytes[0], bytes[1], bytes[2], bytes[3]]));}
+		let (n, i) = match guarded(|| Instruction::decode(bytes)) {Ok(Ok(r)) => r, _ => return None};
+		if n != bytes.len() {return None;}
+		match (self, i)
+		{
+			(Sp::Svc, Instruction::Svc{info}) => Some(info as u32),
+			(Sp::UdfN, Instruction::Udf{info}) => Some(info as u32),
+			(Sp::UdfW, Instruction::Udfw{info}) => Some(info as u32),
+			(Sp::Rsbs, Instruction::Rsb{dst: Register::R0, lhs: Register::R1}) => Some(0),
+			(Sp::Movs, Instruction::Mov{flags: true, dst: Register::R0, src: ImmReg::Immediate(v)}) => u32::try_from(v).ok(),
+			(Sp::Cmp, Instruction::Cmp{lhs: Register::R0, rhs: ImmReg::Immediate(v)}) => u32::try_from(v).ok(),
+			(Sp::B, Instruction::B{off, ..}) => u32::try_from(addr as i64 + 4 + off as i64).ok(),
+			(Sp::Bkpt, Instruction::Bkpt{info}) => Some(info as u32),
+			(Sp::Ldrb, Instruction::Ldrb{dst: Register::R0, addr: Register::R1, off: ImmReg::Immediate(v)}) => u32::try_from(v).ok(),
+			(Sp::LdrLit, Instruction::Ldr{dst: Register::R0, addr: Register::PC, off: ImmReg::Immediate(v)}) => u32::try_from((addr & !3) as i64 + 4 + v as i64).ok(),
+			(Sp::LdrOff, Instruction::Ldr{dst: Register::R0, addr: Register::R1, off: ImmReg::Immediate(v)}) => u32::try_from(v).ok(),
+			_ => None,
+		}
+	}
+}
+
+/// value class of a name: every definition of the name takes a value of the class, every use a spelling of the class
+#[derive(Clone, Copy, Debug, PartialEq, Eq)]
+enum Class
+{
+	/// any value, labels allowed; `.du32` only
+	Word,
+	/// 0..=255 without 0xBE
+	Byte,
+	/// 0..=31
+	Off5,
+	/// multiples of 4 up to 124
+	Off4,
+	/// 0
+	Zero,
+	/// code addresses (labels allowed)
+	Addr,
+	/// word-aligned addresses shortly after the code
+	Lit,
+}
+
+const CLASSES: [Class; 7] = [Class::Word, Class::Byte, Class::Off5, Class::Off4, Class::Zero, Class::Addr, Class::Lit];
+/// no project's code is longer than this (checked when generating), which keeps class `Lit` in reach of every `LDR` literal
+const MAX_CODE: u32 = 600;
+
+impl Class
+{
+	fn spellings(self) -> &'static [Sp]
+	{
+		match self
+		{
+			Class::Word => &[Sp::Du32],
+			Class::Byte => &[Sp::Du32, Sp::Svc, Sp::UdfN, Sp::UdfW, Sp::Movs, Sp::Cmp, Sp::Bkpt],
+			Class::Off5 => &[Sp::Ldrb, Sp::Svc, Sp::Movs, Sp::Bkpt, Sp::Du32, Sp::Ldrb],
+			Class::Off4 => &[Sp::LdrOff, Sp::UdfN, Sp::Cmp, Sp::UdfW, Sp::LdrOff],
+			Class::Zero => &[Sp::Rsbs, Sp::Rsbs, Sp::Svc, Sp::Ldrb, Sp::LdrOff, Sp::Movs, Sp::Du32],
+			Class::Addr => &[Sp::B, Sp::Du32, Sp::B],
+			Class::Lit => &[Sp::LdrLit, Sp::B, Sp::Du32, Sp::LdrLit],
+		}
+	}
+	fn labels(self) -> bool {matches!(self, Class::Word | Class::Addr)}
+	/// the `k`-th definition value of a name of this class
+	fn value(self, k: u64, tag: u64, rng: &mut Rng) -> i64
+	{
+		match self
+		{
+			Class::Word => value_for(tag, rng),
+			Class::Byte => {let v = ((7 + 13 * k) % 251) as i64; if v == 0xBE {251} else {v}},
+			Class::Off5 => ((3 + 5 * k) % 32) as i64,
+			Class::Off4 => (4 * ((1 + 3 * k) % 32)) as i64,
+			Class::Zero => 0,
+			Class::Addr => BASE as i64 + 2 * ((5 + 7 * k) % 300) as i64,
+			Class::Lit => BASE as i64 + (MAX_CODE as i64 + 4) + 4 * ((k * 5) % 105) as i64,
+		}
+	}
+}
+
 #[derive(Clone, Debug, PartialEq)]
 enum St
 {
@@ -35,7 +186,7 @@ enum St
 	Global(String),
 	Import(String),
 	Export(String),
-	Use(String),
+	Use(String, Sp),
 	Include(usize),
 }
 
@@ -65,7 +216,8 @@ impl Project
 			St::Global(n) => format!("g:{n}"),
 			St::Import(n) => format!("m:{n}"),
 			St::Export(n) => format!("e:{n}"),
-			St::Use(n) => format!("u:{n}"),
+			St::Use(n, Sp::Du32) => format!("u:{n}"),
+			St::Use(n, sp) => format!("u:{n}:{}", sp.code()),
 			St::Include(i) => format!("i:{i}"),
 		}).collect::<Vec<_>>().join(",")).collect::<Vec<_>>().join("/")
 	}
@@ -86,7 +238,8 @@ impl Project
 					["g", n] => St::Global((*n).to_owned()),
 					["m", n] => St::Import((*n).to_owned()),
 					["e", n] => St::Export((*n).to_owned()),
-					["u", n] => St::Use((*n).to_owned()),
+					["u", n] => St::Use((*n).to_owned(), Sp::Du32),
+					["u", n, sp] => St::Use((*n).to_owned(), Sp::of_code(sp)?),
 					["i", i] => St::Include(i.parse().ok()?),
 					_ => return None,
 				});
@@ -109,7 +262,7 @@ impl Project
 				St::Global(n) => o.push_str(&format!(".global {n};\n")),
 				St::Import(n) => o.push_str(&format!(".import {n};\n")),
 				St::Export(n) => o.push_str(&format!(".export {n};\n")),
-				St::Use(n) => o.push_str(&format!(".du32 {n};\n")),
+				St::Use(n, sp) => {o.push_str(&sp.text(n)); o.push('\n');},
 				St::Include(i) => o.push_str(&format!(".include \"f{i}.asm\";\n")),
 			}
 		}
@@ -150,8 +303,8 @@ impl Project
 struct Flat
 {
 	ops: Vec<String>,
-	/// (tag, address) of the `.du32` statements in processing order
-	uses: Vec<(u64, u32)>,
+	/// (tag, address, spelling) of the using statements in processing order
+	uses: Vec<(u64, u32, Sp)>,
 	/// value of each defining statement: tag -> (name, value)
 	defs: BTreeMap<u64, (String, i64)>,
 }
@@ -171,7 +324,7 @@ fn flatten(p: &Project) -> Flat
 				St::Global(n) => fl.ops.push(format!("gl:{n}:{tag}")),
 				St::Import(n) => fl.ops.push(format!("im:{n}:{tag}")),
 				St::Export(n) => fl.ops.push(format!("xp:{n}:{tag}")),
-				St::Use(n) => {fl.ops.push(format!("us:{n}:{tag}")); fl.uses.push((tag, *addr)); *addr += 4;},
+				St::Use(n, sp) => {fl.ops.push(format!("us:{n}:{tag}")); fl.uses.push((tag, *addr, *sp)); *addr += sp.size();},
 				St::Include(c) => go(p, *c, tag, fl, addr),
 			}
 		}
@@ -193,7 +346,7 @@ struct Observed
 	panic: Option<String>,
 	/// tag -> value for every `.du32` whose bytes are not the padding
 	values: BTreeMap<u64, u32>,
-	/// number of `.du32` statements that were executed (4 bytes each)
+	/// number of using statements that were executed (their bytes are in the image)
 	executed: usize,
 	/// (tag, kind) in the order of `get_errors()`
 	diags: Vec<(u64, String)>,
@@ -209,6 +362,9 @@ fn kind_of(msgs: &[String]) -> String
 		("duplicate constant", "dupConst"), ("no such global constant", "nfGlobal"), ("no such local constant", "nfLocal"),
 		("declared global constant", "defGlobal"), ("declared local constant", "defLocal"), ("constant out of range", "range"),
 		("invalid argument #", "argType"), ("assembly of", "asmFailed")];
+	if last.starts_with("argument #") && last.ends_with("is out of range") {return "valueRange".to_owned();}
+	if last.starts_with("label out of range") {return "labelRange".to_owned();}
+	if last.starts_with("misaligned label") {return "labelAlign".to_owned();}
 	for (pre, k) in table {if last.starts_with(pre) {return k.to_owned();}}
 	format!("other[{}]", msgs.join(" <- ").replace(' ', "_"))
 }
@@ -235,14 +391,21 @@ fn observe(p: &Project, dir: &PathBuf, fl: &Flat, names: &[String]) -> Observed
 		{
 			for (k, b) in seg.iter().enumerate() {image.insert(range.get_first() + k as u32, *b);}
 		}
-		o.executed = image.len() / 4;
-		for (tag, addr) in &fl.uses
+		for (tag, addr, sp) in &fl.uses
 		{
-			let bytes: Vec<u8> = (0..4).filter_map(|k| image.get(&(addr + k)).copied()).collect();
-			if bytes.len() == 4 && bytes != [0xBE; 4]
+			let bytes: Vec<u8> = (0..sp.size()).filter_map(|k| image.get(&(addr + k)).copied()).collect();
+			if bytes.len() as u32 != sp.size() {continue;}
+			o.executed += 1;
+			if bytes.iter().all(|b| *b == 0xBE) {continue;}
+			match sp.read_back(&bytes, *addr)
 			{
-				o.values.insert(*tag, u32::from_le_bytes([bytes[0], bytes[1], bytes[2], bytes[3]]));
+				Some(v) => {o.values.insert(*tag, v);},
+				None => o.diags.push((*tag, format!("bytes[{}]", hex(&bytes)))),
 			}
+		}
+		if image.len() as u32 != fl.uses.iter().take(o.executed).map(|u| u.2.size()).sum::<u32>()
+		{
+			o.diags.push((0, format!("image[{}-bytes]", image.len())));
 		}
 		for err in ctx.get_errors()
 		{
@@ -423,9 +586,14 @@ impl<'p> RefInt<'p>
 						},
 					}
 				},
-				St::Use(n) =>
+				St::Use(n, sp) =>
 				{
-					if is_reg(n) {return Err(Stop::Violation(tag, "use of a register as a value"));}
+					if is_reg(n)
+					{
+						// a register is a legitimate operand of some instructions: not a use of a constant at all
+						if *sp != Sp::Du32 {return Err(Stop::Unspecified("register name as an instruction operand"));}
+						return Err(Stop::Violation(tag, "use of a register as a value"));
+					}
 					pending_uses.push((tag, n.clone()));
 				},
 				St::Include(c) =>
@@ -479,7 +647,11 @@ impl<'p> RefInt<'p>
 
 	fn use_value(&mut self, tag: u64, v: i64, d: u64) -> Result<(), Stop>
 	{
-		if v < 0 || v > u32::MAX as i64 {return Err(Stop::Violation(tag, "value out of the .du32 range"));}
+		let (_, addr, sp) = *self.fl.uses.iter().find(|u| u.0 == tag).expect("use tag");
+		if !sp.encodable(v, addr)
+		{
+			return Err(Stop::Violation(tag, if sp == Sp::Du32 {"value out of the .du32 range"} else {"value not encodable in the instruction"}));
+		}
 		self.resolved.insert(tag, (v, d));
 		Ok(())
 	}
@@ -547,15 +719,60 @@ fn value_for(tag: u64, rng: &mut Rng) -> i64
 	}
 }
 
+/// value classes of the names of one generated project, and how many definitions each name has received
+struct Gen
+{
+	class: HashMap<String, Class>,
+	count: HashMap<String, u64>,
+}
+
+impl Gen
+{
+	fn new(rng: &mut Rng) -> Gen
+	{
+		let mut class = HashMap::new();
+		let all_word = rng.chance(1, 5);
+		for n in NAMES {class.insert(n.to_owned(), if all_word {Class::Word} else {*rng.pick(&CLASSES)});}
+		Gen{class, count: HashMap::new()}
+	}
+	fn class_of(&self, n: &str) -> Class {self.class.get(n).copied().unwrap_or(Class::Word)}
+	fn def(&mut self, n: String, tag: u64, rng: &mut Rng) -> St
+	{
+		let c = self.class_of(&n);
+		let k = {let e = self.count.entry(n.clone()).or_insert(0); *e += 1; *e - 1};
+		if c.labels() && rng.chance(1, 3) {St::Label(n)} else {let v = c.value(k, tag, rng); St::Const(n, v)}
+	}
+	fn use_(&self, n: String, rng: &mut Rng) -> St
+	{
+		let sp = if is_reg(&n) {Sp::Du32} else {*rng.pick(self.class_of(&n).spellings())};
+		St::Use(n, sp)
+	}
+}
+
+fn code_size(p: &Project) -> u32
+{
+	p.files.iter().flatten().map(|s| match s {St::Use(_, sp) => sp.size(), _ => 0}).sum()
+}
+
 /// random project guided by the reference rules: most statements are chosen so that they are legal where they stand
 fn gen_random(rng: &mut Rng) -> Project
 {
+	loop
+	{
+		let p = gen_random_once(rng);
+		if code_size(&p) <= MAX_CODE {return p;}
+	}
+}
+
+fn gen_random_once(rng: &mut Rng) -> Project
+{
+	let mut g = Gen::new(rng);
 	let max_files = 1 + rng.below(9) as usize;
 	let max_depth = 1 + rng.below(4) as usize;
 	let legal_pct = *rng.pick(&[100u64, 100, 95, 90, 70, 30]);
 	let mut p = Project{files: vec![Vec::new()]};
 	// scopes[k] = what the generator believes about the names of the file at nesting level k (level 0 = top-level table)
-	fn gen_file(p: &mut Project, file: usize, depth: usize, max_depth: usize, max_files: usize, legal_pct: u64, scopes: &mut Vec<HashMap<String, bool>>, rng: &mut Rng)
+	fn gen_file(p: &mut Project, g: &mut Gen, file: usize, depth: usize, max_depth: usize, max_files: usize, legal_pct: u64, scopes: &mut Vec<HashMap<String, bool>>, rng: &mut Rng)
 	{
 		scopes.push(HashMap::new());
 		let n_st = rng.below(7) as usize + if file == 0 {1} else {0};
@@ -578,7 +795,7 @@ fn gen_random(rng: &mut Rng) -> Project
 					let free: Vec<&str> = NAMES.iter().copied().filter(|n| scopes[lvl].get(*n) != Some(&true)).collect();
 					let n = if legal && !free.is_empty() {(*rng.pick(&free)).to_owned()} else {any_name(rng)};
 					scopes[lvl].insert(n.clone(), true);
-					if rng.chance(1, 3) {St::Label(n)} else {St::Const(n, value_for(tag, rng))}
+					g.def(n, tag, rng)
 				},
 				3..=4 =>
 				{
@@ -608,7 +825,7 @@ fn gen_random(rng: &mut Rng) -> Project
 				{
 					let n = if legal {(*rng.pick(&NAMES)).to_owned()} else {any_name(rng)};
 					used.push(n.clone());
-					St::Use(n)
+					g.use_(n, rng)
 				},
 				_ =>
 				{
@@ -617,7 +834,7 @@ fn gen_random(rng: &mut Rng) -> Project
 						let c = p.files.len();
 						p.files.push(Vec::new());
 						p.files[file].push(St::Include(c));
-						gen_file(p, c, depth + 1, max_depth, max_files, legal_pct, scopes, rng);
+						gen_file(p, g, c, depth + 1, max_depth, max_files, legal_pct, scopes, rng);
 						continue;
 					}
 					else {continue}
@@ -637,13 +854,14 @@ fn gen_random(rng: &mut Rng) -> Project
 				let tag = tag_of(file, idx);
 				scopes[lvl].insert(n.clone(), true);
 				if scopes[lvl - 1].get(&n) == Some(&false) {scopes[lvl - 1].insert(n.clone(), true);}
-				p.files[file].push(if rng.chance(1, 3) {St::Label(n)} else {St::Const(n, 100_000 + tag as i64)});
+				let st = g.def(n, tag, rng);
+				p.files[file].push(st);
 			}
 		}
 		scopes.pop();
 	}
 	let mut scopes = vec![HashMap::new()];
-	gen_file(&mut p, 0, 1, max_depth, max_files, legal_pct, &mut scopes, rng);
+	gen_file(&mut p, &mut g, 0, 1, max_depth, max_files, legal_pct, &mut scopes, rng);
 	p
 }
 
@@ -655,27 +873,28 @@ fn gen_deferred(rng: &mut Rng) -> Project
 	let depth = 1 + rng.below(3) as usize;
 	let mut files: Vec<Vec<St>> = vec![Vec::new(); depth + 1];
 	let n = (*rng.pick(&NAMES)).to_owned();
+	let mut g = Gen::new(rng);
 	for k in 0..=depth
 	{
 		let f = &mut files[k];
 		if k == 0 || rng.chance(1, 3) {f.push(St::Global(n.clone()));} else {f.push(St::Import(n.clone()));}
-		if rng.chance(1, 2) {f.push(St::Use(n.clone()));}
+		if rng.chance(1, 2) {f.push(g.use_(n.clone(), rng));}
 		if k < depth {f.push(St::Include(k + 1));}
-		if rng.chance(1, 3) {f.push(St::Use(n.clone()));}
+		if rng.chance(1, 3) {f.push(g.use_(n.clone(), rng));}
 		let define = if k == 0 {rng.chance(9, 10)} else {rng.chance(1, 2)};
 		if define
 		{
 			let tag = tag_of(k, f.len());
-			f.push(if rng.chance(1, 4) {St::Label(n.clone())} else {St::Const(n.clone(), 100_000 + tag as i64)});
+			f.push(g.def(n.clone(), tag, rng));
 		}
-		if rng.chance(1, 3) {f.push(St::Use(n.clone()));}
+		if rng.chance(1, 3) {f.push(g.use_(n.clone(), rng));}
 		if rng.chance(1, 8) {f.push(St::Export(n.clone()));}
 	}
 	Project{files}
 }
 
 /// all two-file projects `pre ++ [include] ++ post` / `child` over one name
-fn enumerate_two_files(max_child: usize, max_pre: usize, max_post: usize) -> Vec<Project>
+fn enumerate_two_files(max_child: usize, max_pre: usize, max_post: usize, sp: Sp, vals: [i64; 3], labels: bool) -> Vec<Project>
 {
 	fn seqs(alpha: &[St], max: usize) -> Vec<Vec<St>>
 	{
@@ -691,9 +910,10 @@ fn enumerate_two_files(max_child: usize, max_pre: usize, max_post: usize) -> Vec
 		out
 	}
 	let x = || "x".to_owned();
-	let child_alpha = [St::Const(x(), 7), St::Label(x()), St::Global(x()), St::Import(x()), St::Export(x()), St::Use(x())];
-	let pre_alpha = [St::Const(x(), 1), St::Global(x()), St::Use(x()), St::Export(x())];
-	let post_alpha = [St::Const(x(), 2), St::Use(x()), St::Label(x())];
+	let mut child_alpha = vec![St::Const(x(), vals[0]), St::Global(x()), St::Import(x()), St::Export(x()), St::Use(x(), sp)];
+	let pre_alpha = [St::Const(x(), vals[1]), St::Global(x()), St::Use(x(), sp), St::Export(x())];
+	let mut post_alpha = vec![St::Const(x(), vals[2]), St::Use(x(), sp)];
+	if labels {child_alpha.push(St::Label(x())); post_alpha.push(St::Label(x()));}
 	let mut out = Vec::new();
 	for pre in seqs(&pre_alpha, max_pre)
 	{
@@ -742,6 +962,13 @@ fn scenarios() -> Vec<Project>
 		"u:a,l:a,u:a,l:b,u:b", "u:a", "i:1/u:a", "i:1,c:a:1/u:a",
 		// range
 		"c:a:4294967296,u:a", "c:a:-1,u:a", "u:a,c:a:-1", "c:a:4294967295,u:a",
+		// a name only the includer defines, used in the child through every evaluator arm (never visible there)
+		"c:a:7,i:1/u:a:svc", "c:a:7,i:1/u:a:udfn", "c:a:7,i:1/u:a:udfw", "c:a:0,i:1/u:a:rsbs", "c:a:7,i:1/u:a:movs", "c:a:7,i:1/u:a:cmp",
+		"c:a:536870920,i:1/u:a:b", "c:a:7,i:1/u:a:bkpt", "c:a:7,i:1/u:a:ldrb", "c:a:536871520,i:1/u:a:ldrlit", "c:a:8,i:1/u:a:ldroff",
+		"i:1,c:a:7/u:a:svc", "i:1,c:a:0/u:a:rsbs,u:a:udfw",
+		// … imported, defined later, exported upwards, deferred through the includer
+		"c:a:7,i:1/m:a,u:a:svc,u:a:movs,u:a:bkpt,u:a:ldrb", "u:a:udfw,i:1,u:a:cmp/u:a:svc,c:a:9,e:a", "g:a,i:1,c:a:8/m:a,u:a:ldroff,u:a:udfn",
+		"u:a:b,l:a,u:a:b,i:1/m:a,u:a:b", "i:1,u:a:ldrlit/c:a:536871520,g:a,u:a:ldrlit",
 	];
 	texts.iter().map(|t| Project::decode(t).unwrap()).collect()
 }
@@ -757,7 +984,7 @@ fn names_of(p: &Project) -> Vec<String>
 		{
 			match st
 			{
-				St::Const(n, _) | St::Label(n) | St::Global(n) | St::Import(n) | St::Export(n) | St::Use(n) => {s.insert(n.clone());},
+				St::Const(n, _) | St::Label(n) | St::Global(n) | St::Import(n) | St::Export(n) | St::Use(n, _) => {s.insert(n.clone());},
 				St::Include(..) => (),
 			}
 		}
@@ -781,6 +1008,11 @@ fn check_one(cx: &mut Cx, p: &Project, fl: &Flat, reply: &str, serial: u64)
 	cx.report.hit_n("use resolved by local task", stages[1]);
 	cx.report.hit_n("use resolved by global task", stages[2]);
 	cx.report.hit_n("files", p.files.len() as u64);
+	for (tag, _, sp) in &fl.uses
+	{
+		let what = if obs.values.contains_key(tag) {"value"} else if obs.diags.iter().any(|d| d.0 == *tag) {"diagnostic"} else {"not reached"};
+		cx.report.hit(&format!("use via {} arm: {what}", sp.arm()));
+	}
 	if let Some(msg) = &obs.panic
 	{
 		cx.report.hit("outcome: PANIC");
@@ -794,7 +1026,7 @@ fn check_one(cx: &mut Cx, p: &Project, fl: &Flat, reply: &str, serial: u64)
 	}
 	if obs.has_file {cx.report.oracle_fail(input.clone(), "a file is still current after the root file ended (scope stack not restored)");}
 	// (a) no value differs from a defining statement of that name
-	let use_name = |tag: u64| match &p.files[file_of_tag(tag)][line_of_tag(tag) as usize - if file_of_tag(tag) == 0 {2} else {1}] {St::Use(n) => n.clone(), _ => String::new()};
+	let use_name = |tag: u64| match &p.files[file_of_tag(tag)][line_of_tag(tag) as usize - if file_of_tag(tag) == 0 {2} else {1}] {St::Use(n, _) => n.clone(), _ => String::new()};
 	let parents = p.parent_map();
 	for (tag, v) in &obs.values
 	{
@@ -802,13 +1034,13 @@ fn check_one(cx: &mut Cx, p: &Project, fl: &Flat, reply: &str, serial: u64)
 		let defs: Vec<u64> = fl.defs.iter().filter(|(_, (dn, dv))| *dn == n && *dv == *v as i64).map(|(t, _)| *t).collect();
 		if defs.is_empty()
 		{
-			cx.report.oracle_fail(input.clone(), format!(".du32 {n} at f{}.asm:{} wrote {v}, which is the value of no definition of {n}", file_of_tag(*tag), line_of_tag(*tag)));
+			cx.report.oracle_fail(input.clone(), format!("the use of {n} at f{}.asm:{} holds {v}, which is the value of no definition of {n}", file_of_tag(*tag), line_of_tag(*tag)));
 			continue;
 		}
 		// (b) isolation: visible only along licensed edges
 		if obs.final_ok && !defs.iter().any(|d| licensed(p, &parents, &n, file_of_tag(*d), file_of_tag(*tag)))
 		{
-			cx.report.oracle_fail(input.clone(), format!(".du32 {n} at f{}.asm:{} sees the definition at f{}.asm:{} although no chain of .export/.global (up) and .import (down) connects the two files",
+			cx.report.oracle_fail(input.clone(), format!("the use of {n} at f{}.asm:{} sees the definition at f{}.asm:{} although no chain of .export/.global (up) and .import (down) connects the two files",
 				file_of_tag(*tag), line_of_tag(*tag), file_of_tag(defs[0]), line_of_tag(defs[0])));
 		}
 	}
@@ -826,13 +1058,13 @@ fn check_one(cx: &mut Cx, p: &Project, fl: &Flat, reply: &str, serial: u64)
 			{
 				if obs.values.get(tag).map(|x| *x as i64) != Some(*v)
 				{
-					cx.report.oracle_fail(input.clone(), format!(".du32 at f{}.asm:{} must see the definition at f{}.asm:{} (value {v}), the image holds {:?}",
+					cx.report.oracle_fail(input.clone(), format!("the use at f{}.asm:{} must see the definition at f{}.asm:{} (value {v}), the image holds {:?}",
 						file_of_tag(*tag), line_of_tag(*tag), file_of_tag(*d), line_of_tag(*d), obs.values.get(tag)));
 				}
 			}
 			if obs.values.len() != res.len() || obs.executed != fl.uses.len()
 			{
-				cx.report.oracle_fail(input.clone(), format!("{} .du32 statements, {} executed, {} hold a value", fl.uses.len(), obs.executed, obs.values.len()));
+				cx.report.oracle_fail(input.clone(), format!("{} using statements, {} executed, {} hold a value", fl.uses.len(), obs.executed, obs.values.len()));
 			}
 		},
 		Verdict::Violation(tag, what) =>
@@ -867,9 +1099,9 @@ fn run_batch(cx: &mut Cx, projects: &[Project], serial: &mut u64)
 
 pub fn run(_id: &str, cx: &mut Cx)
 {
-	cx.report.rule = "projects = include trees (depth <= 4, fan-out <= 3, <= 9 files) of .const/label/.global/.import/.export/.du32/.include statements, written to disk and assembled by the real Context; \
+	cx.report.rule = "projects = include trees (depth <= 4, fan-out <= 3, <= 9 files) of .const/label/.global/.import/.export/.include statements and uses, a use being .du32 <name> or an instruction whose operand goes through one of the evaluator arms (SVC, UDF.N, UDF.W, RSBS / MOVS, CMP / B, BKPT / LDRB / LDR literal, LDR reg+offset) with every name confined to a value class encodable in its spellings, written to disk and assembled by the real Context; \
 (1) hand-written collision scenarios, (2) every two-file project pre++[include]++post / child over one name up to the tier's lengths (exhaustive), (3) random projects guided by the scope rules with a tunable share of illegal statements. \
-non-trivial = at least one .du32 value or one diagnostic observed; distinct = distinct canonical observations".to_owned();
+non-trivial = at least one used value or one diagnostic observed; distinct = distinct canonical observations".to_owned();
 	let mut serial = 0u64;
 	if let Some(input) = cx.replay.clone()
 	{
@@ -892,9 +1124,21 @@ non-trivial = at least one .du32 value or one diagnostic observed; distinct = di
 		cx.report.sample(format!("{} -> {}", p.encode(), canon_obs(&o)));
 	}
 
-	let en = if cx.thorough() {enumerate_two_files(3, 2, 2)} else {enumerate_two_files(3, 1, 2)};
+	let en = if cx.thorough() {enumerate_two_files(3, 2, 2, Sp::Du32, [7, 1, 2], true)} else {enumerate_two_files(3, 1, 2, Sp::Du32, [7, 1, 2], true)};
 	cx.report.hit_n("two-file projects (exhaustive)", en.len() as u64);
 	run_batch(cx, &en, &mut serial);
+	// the same enumeration with the use spelled as an instruction, one run per spelling, values encodable in it
+	let b = BASE as i64;
+	let spelled: [(Sp, [i64; 3], bool); 11] = [
+		(Sp::Svc, [7, 1, 2], false), (Sp::UdfN, [255, 0, 9], false), (Sp::UdfW, [4096, 300, 65535], false), (Sp::Rsbs, [0, 0, 0], false),
+		(Sp::Movs, [7, 1, 2], false), (Sp::Cmp, [255, 0, 9], false), (Sp::B, [b + 2, b + 40, b + 100], true), (Sp::Bkpt, [7, 1, 2], false),
+		(Sp::Ldrb, [31, 1, 2], false), (Sp::LdrLit, [b + 604, b + 608, b + 1024], false), (Sp::LdrOff, [124, 4, 8], false)];
+	for (sp, vals, labels) in spelled
+	{
+		let en = if cx.thorough() {enumerate_two_files(3, 1, 2, sp, vals, labels)} else {enumerate_two_files(2, 1, 2, sp, vals, labels)};
+		cx.report.hit_n("two-file projects, instruction spellings (exhaustive)", en.len() as u64);
+		run_batch(cx, &en, &mut serial);
+	}
 
 	let n = if cx.thorough() {150_000} else {15_000};
 	let mut projects = Vec::with_capacity(n);
